@@ -81,7 +81,27 @@ def check_buffer_frame():
     return (not extra), ('functions writing the buffer state outside the buffer layer: ' + ', '.join(sorted(extra))) if extra else ''
 
 
+def check_int_writers_append_only():
+    """write_unsigned_int_tag / write_signed_int_tag mention `self` only as self.working_buffer.{extend,push,extend_from_slice}(
+    — append-only operations on the working buffer; no other field is touched (the frame the Verus unit writer_core assumes
+    for these two functions, whose closure chains are outside the Verus subset)"""
+    src = rd(os.path.join(REPO, 'src/tag_writer.rs'))
+    bad = []
+    for fn in ['write_unsigned_int_tag', 'write_signed_int_tag']:
+        try:
+            body, mb = fn_body(src, fn)
+        except LookupError as e:
+            return None, f'anchor lost: {e}'
+        for mm in re.finditer(r'\bself\b', mb):
+            rest = mb[mm.end():mm.end() + 60]
+            if not re.match(r'\s*\.\s*working_buffer\s*\.\s*(extend|push|extend_from_slice)\s*\(', rest):
+                bad.append(f'{fn}: self{rest[:40].strip()!r}')
+    return (not bad), '; '.join(bad)
+
+
 CHECKS = {
+    'S:int_writers_append_only': (check_int_writers_append_only, ['C10', 'C19', 'C09'],
+                                  'frame: the two integer element writers use self only to append to self.working_buffer (extend / push / extend_from_slice); justifies the append-only contract assumed for them in the Verus unit writer_core'),
     'S:writer_dest_frame': (check_dest_frame, ['C10'], 'frame: self.dest is only touched by into_inner / get_mut / get_ref / private_flush, and private_flush only appends through write_all'),
     'S:iterator_buffer_frame': (check_buffer_frame, ['C03', 'C04', 'C17'], 'frame: only with_capacity / private_read / ensure_capacity / ensure_data_read write buffer, buffered_byte_length, buffer_offset or read from the source'),
     'S:leaf_id_noninterference': (check_leaf_id_noninterference, ['C16', 'C01', 'C09'],
